@@ -289,6 +289,14 @@ func (m *Residue) AtEnd(w *mc.World) {
 	for _, n := range ListNames(w) {
 		listed[n] = true
 	}
+	// "the directory contains exactly tables.list and the tables it names": nothing missing …
+	for _, n := range ListNames(w) {
+		if w.Lookup(n) == nil {
+			w.Violate(m.Prop, "residue:listed-table-missing-at-quiescence",
+				fmt.Sprintf("all handles idle, no crash, but %s, which tables.list names, is not in the directory; list=%v dir=%v", n, ListNames(w), w.Names()))
+		}
+	}
+	// … and nothing extra
 	for _, n := range w.Names() {
 		if n == "tables.list" || listed[n] {
 			continue
